@@ -107,16 +107,19 @@ Definition frac_of (m e:Z) : Z * Z := if 0 <=? e then (m * 2 ^ e, 1) else (m, 2 
 Definition dy_ltb (m1 e1 m2 e2:Z) : bool :=
   let '(n1, d1) := frac_of m1 e1 in let '(n2, d2) := frac_of m2 e2 in n1 * d2 <? n2 * d1.
 
-(* nearest binary32 (ties to even) of the positive rational num/den; None = overflow to infinity *)
-Definition round_f32 (num den:Z) : option (Z * Z) :=
+(* nearest binary floating-point number (ties to even) of the positive rational num/den, with prec bits of precision, least
+   exponent emin of the last place and overflow at 2^emax; None = overflow to infinity *)
+Definition round_bin (prec emin emax:Z) (num den:Z) : option (Z * Z) :=
   let l := Z.log2 num - Z.log2 den in
   let '(n0, d0) := scale2 num den l in                    (* num/den / 2^l, in (1/2, 2) *)
-  let e1 := if n0 <? d0 then l - 24 else l - 23 in        (* 2^23 <= num/den / 2^e1 < 2^24 *)
-  let e := Z.max e1 (-149) in
+  let e1 := if n0 <? d0 then l - prec else l - (prec - 1) in        (* 2^(prec-1) <= num/den / 2^e1 < 2^prec *)
+  let e := Z.max e1 emin in
   let '(n, d) := scale2 num den e in
   let q := rhe n d in
   if (q =? 0) then Some (0, 0)
-  else if 128 <=? e + Z.log2 q then None else Some (norm q e).
+  else if emax <=? e + Z.log2 q then None else Some (norm q e).
+Definition round_f32 : Z -> Z -> option (Z * Z) := round_bin 24 (-149) 128.
+Definition round_f64 : Z -> Z -> option (Z * Z) := round_bin 53 (-1074) 1024.
 Definition flt_max_m := 2 ^ 24 - 1.   Definition flt_max_e := 104.
 Definition dbl_max_m := 2 ^ 53 - 1.   Definition dbl_max_e := 971.
 
@@ -124,7 +127,7 @@ Definition dbl_max_m := 2 ^ 53 - 1.   Definition dbl_max_e := 971.
 Fixpoint span_digits (s:text) : text * text :=
   match s with c :: t => if isdigit c then let '(a, b) := span_digits t in (c :: a, b) else ([], s) | [] => ([], []) end.
 Inductive fres := FInf | FVal (m e:Z).      (* FVal: normal form; the value as (double)strtof(..) *)
-Definition strtof (s:text) : fres :=
+Definition str_to_float (rnd:Z -> Z -> option (Z * Z)) (s:text) : fres :=
   let s1 := skipb isspace s in
   let '(neg, s2) := match s1 with 45 :: t => (true, t) | 43 :: t => (false, t) | _ => (false, s1) end in
   let '(ip, s3) := span_digits s2 in
@@ -147,11 +150,14 @@ Definition strtof (s:text) : fres :=
     else if e10 <? - (Z.of_nat (length ds) + 100) then FVal 0 0
     else
       let '(n, d) := scale10 mant 1 (- e10) in
-      match round_f32 n d with
+      match rnd n d with
       | None => FInf
       | Some (m, e) => FVal (if neg then - m else m) e
       end
   end.
+
+Definition strtof : text -> fres := str_to_float round_f32.
+Definition strtod : text -> fres := str_to_float round_f64.
 
 (* printf("%f") of m*2^e >= 0, then str_trimchar(.., '0'): at most 6 decimals, trailing zeros and a trailing point removed *)
 Fixpoint strip0 (r:text) : text := match r with c :: t => if c =? 48 then strip0 t else r | [] => [] end.   (* on the reversed digits *)
